@@ -535,10 +535,19 @@ func runC19(res *hx.Result, rng *hx.Rng, tier string, outdir string) {
 		"life = 3..10 phases on one session (1..3 endpoints, 1..5 services): bursts of 1..6 Proxy / Object / Session.client requests (in turn, or together under the same forced schedule), " +
 		"losses of a pooled connection with the services still registered (server closes the socket / server sends garbage / client endpoint closed; the harness waits until the pool dropped it), " +
 		"services unregistered and registered again behind another endpoint, a final Object + Proxy request per service; connections accepted/open and pooled endpoints recorded after every phase; " +
-		"non-trivial = some request asks for a service behind an endpoint whose connection was lost before"
+		"non-trivial = some request asks for a service behind an endpoint whose connection was lost before. " +
+		"view life = 8..16 times: a burst of 2..5 directory changes microseconds apart (services becoming ready behind the endpoints or on the directory's own server, removals, moves; one after the other, " +
+		"each from its own goroutine, or — session connected through a relay of the harness — the first change, then the others while the relay holds the reply of the refresh the first one triggered, " +
+		"reply and signals then delivered together), some while goroutines keep requesting services that stay registered; then, the directory quiet, the session's list is compared with the directory's " +
+		"and goroutines request every service touched; non-trivial = some burst registers two services or more"
 	// probe: the witness of C19_refuted_runlock_after_lock — two goroutines, one endpoint, both miss
 	probe := c19Scenario{Eps: []int{0, 0}, Hook: []bool{true, false}, NEnd: 1}
 	po := c19RunChild(probe, outdir, 999)
+	for try := 0; po.class == "error" && try < 2; try++ {
+		// the set-up of the child failed (not the requests under test): once more
+		res.Notes = append(res.Notes, "probe: set-up failed, run again: "+c19Tail(po.stderr, 200))
+		po = c19RunChild(probe, outdir, 999)
+	}
 	defect := false
 	switch po.class {
 	case "fatal":
